@@ -638,7 +638,7 @@ public:
             if ((ownerIdx == c->idx)&&(!c->self)) return;
             ConstMessageRef data = n.GetData();
             if (pm.MatchesPath(p.c_str(), data(), &n)) byLib.insert(owner);
-            if (conservative) for (size_t i=0; i<use->size(); i++) if (match::PathMatch((*use)[i], p)) {const bool fok = FiltFor(filts, i).EvalMsg(data()); if (fok) byInd.insert(owner);} });
+            if (conservative) for (size_t i=0; i<use->size(); i++) if (match::PathMatch((*use)[i], p)) {const bool fok = FiltFor(filts, i).EvalMsg(data(), n.GetNumChildren(), std::string(n.GetNodeName()())); if (fok) byInd.insert(owner);} });
          if ((conservative)&&(byLib != byInd))
          {
             std::string d = "keys [" + kd + "]: muscle's per-path matcher selects sessions {"; for (uint32 x : byLib) d += U(x) + " "; d += "} but the independent matcher selects {"; for (uint32 x : byInd) d += U(x) + " "; d += "}";
